@@ -652,6 +652,44 @@ fn check_script_run(s: &Script, obs: &Observed) -> Option<Viol> {
             }
         }
     }
+    // plain `jobs` reports every job and removes the finished ones: a job that
+    // was finished in the view of the table before it is gone in the view after it
+    {
+        let mut last: Option<&crate::sim::Ev> = None;
+        let mut pending: Option<Vec<i32>> = None;
+        for e in obs.history.iter().filter(|e| e.pid == 2) {
+            match e.kind.as_str() {
+                "jobcheck" => {
+                    if let Some(done) = pending.take() {
+                        let table = e.text.split("jobs=").nth(1).and_then(|t| t.split(" cur=").next()).unwrap_or("");
+                        for p in done {
+                            if table.split(',').any(|item| item.split_once(']').and_then(|(_, r)| r.split_once(':')).is_some_and(|(q, _)| q.parse::<i32>() == Ok(p))) {
+                                return Some((
+                                    "jobs-keeps-finished".into(),
+                                    "jobs-keeps-finished".into(),
+                                    format!("process {p} was a finished job before `jobs` listed all jobs and is still in the table afterwards: {}", e.text),
+                                ));
+                            }
+                        }
+                    }
+                    last = Some(e);
+                }
+                "jobsout" => {
+                    if let Some(pre) = last {
+                        let table = pre.text.split("jobs=").nth(1).and_then(|t| t.split(" cur=").next()).unwrap_or("");
+                        let done: Vec<i32> = table
+                            .split(',')
+                            .filter_map(|item| item.split_once(']').and_then(|(_, r)| r.split_once(':')))
+                            .filter(|(_, st)| st.starts_with("exited") || st.starts_with("signaled"))
+                            .filter_map(|(q, _)| q.parse().ok())
+                            .collect();
+                        pending = Some(done);
+                    }
+                }
+                _ => {}
+            }
+        }
+    }
     // `fg %N` of a suspended job that stops again: "if the job gets suspended
     // again, it is set as the current job", and the former current job becomes
     // the previous one. Judged only when nothing else can have moved the marks
